@@ -7,6 +7,10 @@ CONSTANTS
   MaxDstFrag = 1
   MaxQ = 0
   Ops = {"read", "length", "argv", "arrmsg", "memchr", "memfcn", "memstr", "memtok", "wide"}
+  EmptyBases = {"slice", "null", "guard", "foreign"}
+  ForeignBytes = {128, 255}
+  ArrKinds = {"exact", "shared", "roomy"}
+  MaxFail = 4
 VIEW View
 ACTION_CONSTRAINT Emit
 CHECK_DEADLOCK FALSE
